@@ -53,6 +53,16 @@ class Gen(PartGenerator):
             p = Part(name, self.value)
             self.log.append(p)
             return p
+        if isinstance(b, dict):      # {"nest": [2, 1]}: a batch of batches (a pallet of boxes)
+            outer = Batch(name)
+            for j, n in enumerate(b['nest']):
+                inner = Batch(f'{name}.b{j}')
+                for i in range(n):
+                    p = Part(f'{name}.{j}{i}', self.value)
+                    self.log.append(p)
+                    inner.parts.append(p)
+                outer.parts.append(inner)
+            return outer
         batch = Batch(name)
         for i in range(b):
             p = Part(f'{name}.{i}', self.value)
